@@ -542,7 +542,15 @@ fn one_history(u: &mut Universe, r: &mut Rng, out: &mut Out, cnt: &mut Counts, m
                     o.push(0);
                     o.push(c);
                     cnt.hit(&format!("push:{}:reject{}", variant, c));
-                    tagbits |= 1 << c.min(20);
+                    // 1: rejected before the budget check, 2: budget, 3: verification, 4: bucket cap, 5: duplicate
+                    tagbits |= match c {
+                        1 | 2 | 3 => 1 << 1,
+                        4 => 1 << 2,
+                        5 => 1 << 3,
+                        6 => 1 << 4,
+                        7 => 1 << 5,
+                        _ => 1 << 6,
+                    };
                 }
             }
         } else if kind < 56 {
@@ -670,7 +678,7 @@ fn one_history(u: &mut Universe, r: &mut Rng, out: &mut Out, cnt: &mut Counts, m
         obs.extend(o);
         segs.push(seg);
     }
-    let tag = format!("L{}b{}p{}k{}v{}:{:x}", leaves, batch, max_proofs, max_buckets, budget.min(9), tagbits);
+    let tag = format!("L{}:{:x}", leaves, tagbits);
     out.case(1901, &tag, &segs, &obs);
 }
 
@@ -756,7 +764,7 @@ fn main() {
     let histories: u64 = std::env::var("VERIF_POOL_HISTORIES")
         .ok()
         .and_then(|s| s.parse().ok())
-        .unwrap_or(if thorough { 50_000 } else { 2_400 });
+        .unwrap_or(if thorough { 50_000 } else { 3_000 });
     let pf_cases: u64 = if thorough { 4_000 } else { 400 };
     let max_ops = 40;
     if let Ok(s) = std::env::var("VERIF_POOL_SHARD") {
